@@ -175,9 +175,17 @@ def _setup(reg, ex):
     ex.str_axioms['lower'] = lambda s, r, f: [f(r) == r]
 
 
+def pick(v, label, n):
+    """v.choose restricted to the alternatives a harness variant names in its `only` option."""
+    allowed = v.hdef.opts.get('only', {}).get(label)
+    if allowed is None:
+        return v.choose(n, label)
+    return allowed[v.choose(len(allowed), label)]
+
+
 def extra_lines(v, label='X'):
     """Pre-state of _extra_headers: None, an empty list, or one / two raw Set-Cookie lines."""
-    k = v.choose(4, label + '-shape')
+    k = pick(v, label + '-shape', 4)
     if k == 0:
         return None
     return [(SC, v.str('%s_line_%d' % (label, i))) for i in range(k - 1)]
@@ -762,6 +770,567 @@ def _typed_property(v):
 for _attr in TYPED:
     harness(PROP, RESP + '.' + _attr, name='typed_property[%s]' % _attr, setup=_prop_setup, attr=_attr,
             inline=[HELP + ':_format_*', 'falcon.util.misc:dt_to_http'])(_typed_property)
+
+
+# ---------------------------------------------------------------------------
+# emission: the header list handed to the server
+
+
+@stubclass
+class Morsel:
+    """http.cookies.Morsel as far as falcon uses it: item assignment of attributes, OutputString()."""
+
+    def __init__(self, v, key, value, label):
+        self.v = v
+        self.key = key
+        self.value = value
+        self.attrs = {}     # lower-case attribute -> value, as Morsel.__setitem__ stores it
+        self.writes = []    # every attribute assignment, in order
+        self.sets = 1       # how often jar[key] = ... was executed for this morsel
+        self.out = v.str(label + '_output')  # what OutputString() renders: opaque
+
+    def __setitem__(self, k, val):
+        self.writes.append((k, val))
+        self.attrs[k.lower()] = val
+
+    def OutputString(self, attrs=None):
+        return self.out
+
+
+@stubclass
+class Jar:
+    """http.cookies.SimpleCookie as far as falcon uses it: jar[name] = value, jar[name][attr] = x, values().
+
+    Like the stdlib class, assigning to an existing name re-uses that name's Morsel (its attributes stay).
+    """
+
+    def __init__(self, v):
+        self.v = v
+        self.entries = []
+        self.reject_next_key = False
+
+    def _find(self, name):
+        for m in self.entries:
+            if m.key is name:
+                return m
+        for m in self.entries:
+            if m.key == name:  # forks on symbolic names
+                return m
+        return None
+
+    def __setitem__(self, name, value):
+        if self.reject_next_key:
+            self.v.ctx.raise_py(self.v.real('http.cookies:CookieError'), 'Illegal key %r' % (name,))
+        m = self._find(name)
+        if m is None:
+            self.entries.append(Morsel(self.v, name, value, 'cookie%d' % len(self.entries)))
+        else:
+            m.value = value
+            m.sets += 1
+
+    def __getitem__(self, name):
+        m = self._find(name)
+        if m is None:
+            self.v.ctx.raise_py(KeyError, name)
+        return m
+
+    def values(self):
+        return list(self.entries)
+
+
+def cookie_jar(v, label='jar'):
+    """Pre-state of _cookies: None or a jar holding 0..2 cookies.  -> (jar, function giving the expected Set-Cookie values)."""
+    k = v.choose(4, label + '-shape')
+    if k == 0:
+        return None, (lambda: [])
+    if v.concrete:
+        from http.cookies import SimpleCookie
+
+        jar = SimpleCookie()
+        for i in range(k - 1):
+            jar['c%d' % i] = 'v%d' % i
+        return jar, (lambda: [m.OutputString() for m in jar.values()])
+    jar = Jar(v)
+    for i in range(k - 1):
+        m = Morsel(v, v.str('cookie_name_%d' % i), v.str('cookie_value_%d' % i), 'cookie%d' % i)
+        for m0 in jar.entries:
+            v.assume(m0.key != m.key)  # a jar holds each name once
+        jar.entries.append(m)
+    entries = list(jar.entries)
+    return jar, (lambda: [m.out for m in entries])
+
+
+def jar_untouched(v, resp, jar, outs0):
+    j1 = v.get(resp, '_cookies')
+    if jar is None:
+        return j1 is None
+    if v.concrete:
+        return j1 is jar and [m.OutputString() for m in jar.values()] == outs0
+    return j1 is jar and len(jar.entries) == len(outs0) and all(m.writes == [] and m.sets == 1 for m in jar.entries)
+
+
+def flatten(segments):
+    out = []
+    for seg in segments:
+        if not isinstance(seg, list):
+            return None
+        out.extend(seg)
+    return out
+
+
+def _emission_world(v, keys):
+    other = v.str('other_key')
+    hdrs, H = header_map(v, keys + [other])
+    X = extra_lines(v)
+    X0 = None if X is None else list(X)
+    jar, outs = cookie_jar(v)
+    outs0 = outs()
+    mk = v.choose(3, 'media-type')
+    mt = None if mk < 2 else v.str('media_type')
+    return other, hdrs, H, X, X0, jar, outs0, mk, mt
+
+
+@harness(PROP, RESP + '._wsgi_headers', setup=_setup)
+def wsgi_headers(v):
+    from pyvc.core import SDictItems, SegList
+
+    other, hdrs, H, X, X0, jar, outs0, mk, mt = _emission_world(v, ['content-type'])
+    resp = mk_resp(v, hdrs, X, jar)
+    out = v.call(resp) if mk == 0 else v.call(resp, mt)
+    v.check('no-exception', out.exc is None)
+    if out.exc is not None:
+        return
+    if mt is not None and not H.has('content-type'):
+        E = H.put('content-type', mt)
+        v.cover('default-content-type-added')
+    else:
+        E = H
+        v.cover('explicit-or-no-content-type')
+    want_tail = list(X0 or []) + [(SC, o) for o in outs0]
+    r = out.value
+    if v.concrete:
+        v.check('each-plain-header-exactly-once-then-raw-lines-then-one-line-per-cookie', r == list(E.raw.items()) + want_tail)
+    else:
+        ok = isinstance(r, SegList) and len(r.segments) >= 1 and isinstance(r.segments[0], SDictItems)
+        v.check('plain-headers-come-first-as-the-items-of-the-map', ok)
+        if not ok:
+            return
+        v.check('default-content-type-only-when-absent-never-overrides', mk_bool(r.segments[0].arr == E.raw))
+        v.check('each-plain-header-exactly-once-at-any-key', Map(r.segments[0].arr).same_at(E, other))
+        tail = flatten(r.segments[1:])
+        v.check('then-the-raw-lines-then-one-set-cookie-line-per-cookie', tail is not None and pairs_eq(tail, want_tail))
+    H1 = map_of(v, resp)
+    v.check('emission-changes-the-map-only-by-the-default-content-type', H1.eq(E))
+    v.check('raw-lines-and-cookie-jar-untouched', And(v.get(resp, '_extra_headers') is X, True if X is None else pairs_eq(X, X0), jar_untouched(v, resp, jar, outs0)))
+    v.check('set-cookie-never-among-the-plain-headers', Not(H1.has(SC)))
+    v.cover('emitted')
+
+
+# --- ASGI -----------------------------------------------------------------------------
+
+
+def _re_range(hi):
+    return z3.Star(z3.Range(z3.StringVal(chr(0)), z3.StringVal(chr(hi))))
+
+
+def _unicode_encode_error(codec):
+    a = (codec, '', 0, 1, 'ordinal not in range')
+    return ExcVal(UnicodeEncodeError, a, real=UnicodeEncodeError(*a))
+
+
+def codec_model(ctx, direction, s, enc, errors):
+    """str.encode('ascii' | 'latin-1') with errors='strict': same code points, UnicodeEncodeError outside the range."""
+    from pyvc.core import Unreached
+
+    e = enc.lower().replace('_', '-')
+    e = {'latin1': 'latin-1', 'iso-8859-1': 'latin-1', 'us-ascii': 'ascii'}.get(e, e)
+    if direction != 'encode' or errors != 'strict' or e not in ('ascii', 'latin-1'):
+        raise Unreached('%s with codec %r has no model here' % (direction, enc))
+    if ctx.branch(z3.Not(z3.InRe(s.t, _re_range(127 if e == 'ascii' else 255))), label=e + '-unencodable'):
+        raise PyRaise(_unicode_encode_error(e))
+    return SStr(s.t, 'bytes')
+
+
+def in_range(x, hi):
+    if isinstance(x, SStr):
+        return mk_bool(z3.InRe(x.t, _re_range(hi)))
+    return all(ord(c) <= hi for c in x)
+
+
+def as_bytes(x):
+    return SStr(x.t, 'bytes') if isinstance(x, SStr) else x.encode('latin-1')
+
+
+class Latin1Items:
+    """Result segment of the callee contract of _encode_items_to_latin1: the items of `arr`, names and values latin-1 encoded."""
+
+    def __init__(self, arr):
+        self.arr = arr
+
+
+def _asgi_setup(reg, ex):
+    from pyvc.core import SegList
+
+    _setup(reg, ex)
+    ex.codec_handler = codec_model
+
+    def encode_items(I, data):
+        # callee contract (proved by harness encode_items_to_latin1 for concrete key sets):
+        # [(k.encode('latin-1'), v.encode('latin-1')) for k, v in data.items()], UnicodeEncodeError if any is outside latin-1
+        if not isinstance(data, SDict):
+            raise AssertionError('contract used with a symbolic map only')
+        if I.ctx.choose(2, 'some-header-outside-latin-1'):
+            raise PyRaise(_unicode_encode_error('latin-1'))
+        return SegList([Latin1Items(data.arr)])
+
+    ex._c15_encode_items = encode_items
+
+
+def _asgi_setup_symbolic(reg, ex):
+    _asgi_setup(reg, ex)
+    reg.stubs['falcon.util.misc:_encode_items_to_latin1'] = ex._c15_encode_items
+
+
+@harness(PROP, ARESP + '._asgi_headers', setup=_asgi_setup_symbolic)
+def asgi_headers(v):
+    """Arbitrary (symbolic) header map; _encode_items_to_latin1 replaced by its contract."""
+    from pyvc.core import SegList
+
+    if v.concrete:
+        return  # the callee contract is a stub: replay is done by asgi_headers_small
+    other, hdrs, H, X, X0, jar, outs0, mk, mt = _emission_world(v, ['content-type'])
+    for _, line in (X0 or []):
+        v.assume(in_range(line, 127))
+    for o in outs0:
+        v.assume(in_range(o, 127))
+    resp = mk_resp(v, hdrs, X, jar, cls=ARESP)
+    out = v.call(resp) if mk == 0 else v.call(resp, mt)
+    E = H.put('content-type', mt) if (mt is not None and not H.has('content-type')) else H
+    H1 = map_of(v, resp)
+    v.check('emission-changes-the-map-only-by-the-default-content-type', H1.eq(E))
+    if out.exc is not None:
+        v.check('only-a-header-outside-latin-1-fails-and-as-valueerror', out.exc.isa(ValueError) and not out.exc.isa(UnicodeError)
+                and v.ctx.labels.count('some-header-outside-latin-1=1') == 1)
+        v.cover('unencodable')
+        return
+    r = out.value
+    ok = isinstance(r, SegList) and len(r.segments) >= 1 and isinstance(r.segments[0], Latin1Items)
+    v.check('plain-headers-come-first-latin-1-encoded-items-of-the-map', ok)
+    if not ok:
+        return
+    v.check('default-content-type-only-when-absent-never-overrides', mk_bool(r.segments[0].arr == E.raw))
+    v.check('each-plain-header-exactly-once-at-any-key', Map(r.segments[0].arr).same_at(E, other))
+    want_tail = [(b'set-cookie', as_bytes(line)) for _, line in (X0 or [])] + [(b'set-cookie', as_bytes(o)) for o in outs0]
+    tail = flatten(r.segments[1:])
+    v.check('then-the-raw-lines-then-one-set-cookie-line-per-cookie-as-lower-case-bytes', tail is not None and pairs_eq(tail, want_tail))
+    v.check('raw-lines-and-cookie-jar-untouched', And(v.get(resp, '_extra_headers') is X, True if X is None else pairs_eq(X, X0), jar_untouched(v, resp, jar, outs0)))
+    v.cover('emitted')
+
+
+SMALL_KEYS = ['x-custom', 'content-type']
+
+
+def small_map(v, label='H'):
+    """A header map with CONCRETE lower-case keys (a subset of SMALL_KEYS, both orders) and symbolic values."""
+    k = v.choose(5, label + '-keys')
+    keys = [[], ['x-custom'], ['content-type'], ['x-custom', 'content-type'], ['content-type', 'x-custom']][k]
+    return {key: v.str('%s_%s' % (label, key.replace('-', '_'))) for key in keys}
+
+
+@harness(PROP, 'falcon.util.misc:_encode_items_to_latin1', setup=_asgi_setup)
+def encode_items_to_latin1(v):
+    d = small_map(v)
+    d0 = dict(d)
+    out = v.call(d)
+    bad = Or(*[Not(in_range(val, 255)) for val in d0.values()]) if d0 else False
+    if bad:
+        v.check('outside-latin-1-raises-unicodeencodeerror', out.exc is not None and out.exc.isa(UnicodeEncodeError))
+        v.cover('unencodable')
+        return
+    v.check('no-exception', out.exc is None)
+    if out.exc is None:
+        v.check('each-item-once-in-order-as-latin-1-bytes', pairs_eq(out.value, [(as_bytes(k), as_bytes(val)) for k, val in d0.items()]))
+        v.check('argument-untouched', list(d.keys()) == list(d0.keys()) and all(d[k] is d0[k] for k in d0))
+        v.cover('encoded')
+
+
+@harness(PROP, ARESP + '._asgi_headers', name='asgi_headers_small', setup=_asgi_setup, inline=['falcon.util.misc:_encode_items_to_latin1'])
+def asgi_headers_small(v):
+    """End to end (real _encode_items_to_latin1) for maps with concrete keys and symbolic values."""
+    d = small_map(v)
+    d0 = dict(d)
+    X = extra_lines(v)
+    X0 = None if X is None else list(X)
+    jar, outs = cookie_jar(v)
+    outs0 = outs()
+    for _, line in (X0 or []):
+        v.assume(in_range(line, 127))
+    for o in outs0:
+        v.assume(in_range(o, 127))
+    mk = v.choose(3, 'media-type')
+    mt = None if mk < 2 else v.str('media_type')
+    resp = mk_resp(v, d, X, jar, cls=ARESP)
+    out = v.call(resp) if mk == 0 else v.call(resp, mt)
+    E = dict(d0)
+    if mt is not None and 'content-type' not in E:
+        E['content-type'] = mt
+    bad = Or(*[Not(in_range(val, 255)) for val in E.values()]) if E else False
+    if bad:
+        v.check('a-header-outside-latin-1-raises-valueerror', out.exc is not None and out.exc.isa(ValueError) and not out.exc.isa(UnicodeError))
+        v.cover('unencodable')
+        return
+    v.check('no-exception', out.exc is None)
+    if out.exc is not None:
+        return
+    want = [(as_bytes(k), as_bytes(val)) for k, val in E.items()]
+    want += [(b'set-cookie', as_bytes(line)) for _, line in (X0 or [])] + [(b'set-cookie', as_bytes(o)) for o in outs0]
+    v.check('each-plain-header-exactly-once-lower-case-bytes-then-raw-lines-then-one-line-per-cookie', pairs_eq(out.value, want))
+    v.check('names-are-lower-case-bytes', all(isinstance(n, bytes) and n == n.lower() for n, _ in out.value) if isinstance(out.value, list) else False)
+    d1 = v.get(resp, '_headers')
+    v.check('emission-changes-the-map-only-by-the-default-content-type', d1 is d and list(d1.keys()) == list(E.keys()) and And(*[d1[k] == E[k] for k in E]))
+    v.cover('emitted')
+
+
+# ---------------------------------------------------------------------------
+# cookies: set_cookie / unset_cookie over a recording cookie jar
+
+SAMESITE = {'lax': 'Lax', 'strict': 'Strict', 'none': 'None'}
+
+
+def _cookie_setup(reg, ex):
+    from http import cookies
+
+    _setup(reg, ex)
+    ex.codec_handler = codec_model
+    # three evaluated facts of str.capitalize (the function stays uninterpreted elsewhere)
+    ex.str_axioms['capitalize'] = lambda s, r, f: [f(z3.StringVal(k)) == z3.StringVal(k.capitalize()) for k in SAMESITE]
+    reg.add_model(cookies.SimpleCookie, lambda I, *a: _new_jar(I))
+    reg.inline.add(HELP + ':_is_ascii_encodable')
+
+
+def _new_jar(I):
+    jar = Jar(I.ctx.ghost['v'])
+    jar.reject_next_key = I.ctx.ghost.get('reject-key', False)
+    I.ctx.ghost['created-jar'] = jar
+    return jar
+
+
+@stubclass
+class Options:
+    def __init__(self, secure_cookies_by_default):
+        self.secure_cookies_by_default = secure_cookies_by_default
+
+
+def morsels(v, jar):
+    """Observation of a jar (stub or the real SimpleCookie on replay): [(name, value, {attribute: value actually set})]."""
+    if jar is None:
+        return []
+    if isinstance(jar, Jar):
+        return [(m.key, m.value, dict(m.attrs)) for m in jar.entries]
+    return [(m.key, m.value, {k: x for k, x in m.items() if not (isinstance(x, str) and x == '')}) for m in jar.values()]
+
+
+def attrs_eq(got, want):
+    if sorted(got) != sorted(want):
+        return False
+    conj = []
+    for k in want:
+        g, w = got[k], want[k]
+        if isinstance(w, bool) or isinstance(g, bool):
+            if g is not w:
+                return False
+        else:
+            conj.append(g == w)
+    return And(*conj) if conj else True
+
+
+def prior_jar(v, kind, name):
+    """0: no jar yet; 1: a jar holding another cookie; 2: a jar already holding this name, with attributes from an earlier call."""
+    if kind == 0:
+        return None, None
+    if v.concrete:
+        from http.cookies import SimpleCookie
+
+        jar = SimpleCookie()
+        if kind == 1:
+            jar['zz-other'] = 'kept'
+            jar['zz-other']['path'] = '/kept'
+            v.assume(name != 'zz-other')
+        else:
+            jar[name] = 'stale'
+            jar[name]['domain'] = 'stale.example'
+            jar[name]['max-age'] = 99
+        return jar, morsels(v, jar)
+    jar = Jar(v)
+    if kind == 1:
+        on = v.str('other_cookie_name')
+        v.assume(on != name)
+        m = Morsel(v, on, v.str('other_cookie_value'), 'other_cookie')
+        m.attrs['path'] = v.str('other_cookie_path')
+    else:
+        m = Morsel(v, name, v.str('stale_value'), 'stale_cookie')
+        m.attrs['domain'] = v.str('stale_domain')
+        m.attrs['max-age'] = 99
+    jar.entries.append(m)
+    return jar, morsels(v, jar)
+
+
+def find_cookie(v, ms, name):
+    for m in ms:
+        if m[0] is name:
+            return m
+    for m in ms:
+        if m[0] == name:
+            return m
+    return None
+
+
+def others_untouched(v, before, after, name):
+    b = [m for m in (before or []) if m[0] is not name and not (v.concrete and m[0] == name)]
+    a = [m for m in after if m[0] is not name and not (v.concrete and m[0] == name)]
+    if len(a) != len(b):
+        return False
+    return And(*[And(x[0] == y[0], x[1] == y[1], attrs_eq(x[2], y[2])) for x, y in zip(a, b)]) if a else True
+
+
+def cookie_inputs(v):
+    """The arguments of set_cookie."""
+    a = {}
+    ek = pick(v, 'expires', 3)
+    a['expires'] = None if ek == 0 else GhostDT(v, None if ek == 1 else v.real('datetime:timezone')(v.real('datetime:timedelta')(hours=2)), 'expires')
+    mk = pick(v, 'max_age', 5)
+    a['max_age'] = [None, None, 3.7, '15', 0][mk] if mk != 1 else v.int('max_age')
+    for k in ('domain', 'path'):
+        a[k] = v.str(k) if pick(v, k + '?', 2) else None
+    sk = pick(v, 'secure', 3)
+    a['secure'] = [None, True, False][sk]
+    a['http_only'] = bool(pick(v, 'http_only', 2))
+    ssk = pick(v, 'same_site', 7)
+    a['same_site'] = [None, None, 'Lax', 'STRICT', 'none', 'bogus', ''][ssk] if ssk != 1 else v.str('same_site')
+    a['partitioned'] = bool(pick(v, 'partitioned', 2))
+    return a
+
+
+def _set_cookie(v):
+    name, value = v.str('name'), v.str('value')
+    a = cookie_inputs(v)
+    default_secure = bool(v.choose(2, 'secure_cookies_by_default')) if a['secure'] is None else True
+    jk = pick(v, 'jar', 3)
+    jar, before = prior_jar(v, jk, name)
+    reject = bool(jk == 0 and pick(v, 'jar-rejects-the-name', 2))
+    if reject and v.concrete:
+        name = 'bad name'  # http.cookies rejects keys with a space
+    other = v.str('other_key')
+    hdrs, H = header_map(v, [other])
+    X = extra_lines(v)
+    X0 = None if X is None else list(X)
+    resp = mk_resp(v, hdrs, X, jar, options=Options(default_secure))
+    if not v.concrete:
+        v.ctx.ghost['v'] = v
+        v.ctx.ghost['reject-key'] = reject
+    out = v.call(resp, name, value, **a)
+    v.check('plain-headers-and-raw-lines-untouched', And(map_of(v, resp).eq(H), v.get(resp, '_extra_headers') is X, True if X is None else pairs_eq(X, X0)))
+    jar1 = v.get(resp, '_cookies')
+    after = morsels(v, jar1)
+    if not in_range(name, 127):
+        v.check('non-ascii-name-raises-keyerror', out.exc is not None and out.exc.isa(KeyError))
+        v.check('rejected-cookie-leaves-the-jar-untouched', jar1 is jar and others_untouched(v, before, after, None))
+        v.cover('non-ascii-name')
+        return
+    if not in_range(value, 127):
+        v.check('non-ascii-value-raises-valueerror', out.exc is not None and out.exc.isa(ValueError))
+        v.check('rejected-cookie-leaves-the-jar-untouched', jar1 is jar and others_untouched(v, before, after, None))
+        v.cover('non-ascii-value')
+        return
+    if reject:
+        v.check('name-the-jar-rejects-raises-keyerror', out.exc is not None and out.exc.isa(KeyError) and not out.exc.isa(v.real('http.cookies:CookieError')))
+        v.check('rejected-cookie-is-not-in-the-jar', find_cookie(v, after, name) is None)
+        v.cover('illegal-name')
+        return
+    # ---- the attribute table, from the statement --------------------------------------------------
+    want = {}
+    ss = a['same_site']
+    if ss is not None and Len(ss) > 0:
+        low = lower(ss)
+        if Or(*[low == k for k in SAMESITE]):
+            if isinstance(low, str):
+                want['samesite'] = SAMESITE[low]
+            else:
+                want['samesite'] = low.capitalize()
+        else:
+            v.check('invalid-samesite-raises-valueerror', out.exc is not None and out.exc.isa(ValueError))
+            v.cover('invalid-samesite')
+            return
+    v.check('no-exception', out.exc is None)
+    if out.exc is not None:
+        return
+    dt = a['expires']
+    if dt is not None:
+        if dt.tzinfo is None:
+            v.check('naive-expires-formatted-as-given', dt.formats == [HTTP_DATE_FMT] and dt.converted_to == [])
+            src = dt
+        else:
+            v.check('aware-expires-converted-to-utc-then-formatted', dt.converted_to == [v.real('datetime:timezone').utc] and dt.formats == []
+                    and dt.utc is not None and dt.utc.formats == [HTTP_DATE_FMT])
+            src = dt.utc
+        if src is None or len(src.rendered) != 1:
+            return
+        want['expires'] = src.rendered[0]
+    ma = a['max_age']
+    if ma is not None:
+        if ma == 0:
+            v.cover('max-age-zero')
+            zero = True
+        else:
+            zero = False
+            want['max-age'] = ma if not isinstance(ma, (float, str)) else int(ma)
+    else:
+        zero = False
+    for k in ('domain', 'path'):
+        if a[k] is not None and Len(a[k]) > 0:
+            want[k] = a[k]
+    if (default_secure if a['secure'] is None else a['secure']):
+        want['secure'] = True
+    if a['http_only']:
+        want['httponly'] = True
+    if a['partitioned']:
+        want['partitioned'] = True
+    mine = find_cookie(v, after, name)
+    v.check('cookie-stored-under-its-name-with-its-value', mine is not None and And(mine[0] == name, mine[1] == value))
+    if mine is None:
+        return
+    v.check('one-entry-per-cookie-name-others-untouched', And(len(after) == (len(before or []) + (0 if jk == 2 else 1)), others_untouched(v, before, after, name)))
+    if isinstance(want.get('samesite'), SStr):
+        got = mine[2].get('samesite')
+        v.check('samesite-capitalised', got is not None and Or(*[And(lower(ss) == k, got == c) for k, c in SAMESITE.items()]))
+    got = dict(mine[2])
+    if zero:
+        # `max_age=0` asks for Max-Age=0 (expire now); stated on its own so that the table below is not blurred by it
+        v.check('max-age-zero-is-written', 'max-age' in got and got['max-age'] == 0)
+        got.pop('max-age', None)
+    if jk == 2:
+        v.check('re-set-cookie-carries-exactly-the-requested-attributes', attrs_eq(got, want))
+        v.cover('re-set')
+    else:
+        v.check('cookie-carries-exactly-the-requested-attributes', attrs_eq(got, want))
+        v.cover('set')
+
+
+_DEFAULTS = {'expires': [0], 'max_age': [0], 'domain?': [0], 'path?': [0], 'secure': [0], 'http_only': [1], 'same_site': [0], 'partitioned': [0],
+             'jar': [0], 'jar-rejects-the-name': [0], 'X-shape': [0]}
+SC_TARGET = RESP + '.set_cookie'
+# every combination of the attribute arguments (samesite: absent / arbitrary string; max_age: absent / arbitrary int), split for parallel runs
+for _e in range(3):
+    for _s in range(3):
+        harness(PROP, SC_TARGET, name='set_cookie[expires=%d,secure=%d]' % (_e, _s), setup=_cookie_setup,
+                only=dict(_DEFAULTS, **{'expires': [_e], 'secure': [_s], 'max_age': [0, 1], 'domain?': [0, 1], 'path?': [0, 1], 'http_only': [0, 1],
+                                       'same_site': [0, 1], 'partitioned': [0, 1]}))(_set_cookie)
+# samesite in concrete spellings (replayable), max_age coercions (float, str, zero), jar states (other cookie / same name again / rejected name)
+harness(PROP, SC_TARGET, name='set_cookie[samesite-spellings]', setup=_cookie_setup, only=dict(_DEFAULTS, **{'same_site': [2, 3, 4, 5, 6], 'jar': [0, 1]}))(_set_cookie)
+harness(PROP, SC_TARGET, name='set_cookie[max-age-coercion]', setup=_cookie_setup, only=dict(_DEFAULTS, **{'max_age': [1, 2, 3, 4]}))(_set_cookie)
+harness(PROP, SC_TARGET, name='set_cookie[jar-states]', setup=_cookie_setup,
+        only=dict(_DEFAULTS, **{'jar': [0, 1, 2], 'jar-rejects-the-name': [0, 1], 'X-shape': [0, 1, 2], 'expires': [0, 1], 'max_age': [0, 1], 'domain?': [0, 1],
+                                'secure': [0, 2], 'same_site': [0, 2]}))(_set_cookie)
 
 
 KILLS = [
